@@ -58,7 +58,7 @@ class OutputDataWithInjection(OutputData):
     @staticmethod
     def _other_label(other):
         return (
-            other.channel.scoped_label if isinstance(other, HasChannel) else str(other)
+            other.channel.scoped_label if isinstance(other, HasChannel) else repr(other)
         )
 
     def _get_injection_label(self, injection_class, *args):
@@ -90,8 +90,14 @@ class OutputDataWithInjection(OutputData):
         except (AttributeError, KeyError):
             # Fall back on creating a new node in case parent is None or node nexists
             node_args = (self, *args) if inject_self else args
+            # Run right away only if every channel-like argument already holds data
+            ready = all(
+                arg.channel.value is not NOT_DATA
+                for arg in node_args
+                if isinstance(arg, HasChannel)
+            )
             return injection_class(
-                *node_args, parent=self.owner.parent, label=label, autorun=True
+                *node_args, parent=self.owner.parent, label=label, autorun=ready
             )
 
     # We don't wrap __all__ the operators, because you might really want the string or
